@@ -6,6 +6,7 @@ From Coq.Strings Require Import Byte.
 From GI Require Import Gen.LockedFileConsts LockedFile.LockedFile LockedFile.LockBasics
   LockedFile.LockProofs LockedFile.TransformProofs LockedFile.TransformCall
   LockedFile.LinBasics LockedFile.LinProofs LockedFile.LinTheorems LockedFile.FaultProofs.
+From GI Require Import LockedFile.Policy LockedFile.PolicyProofs LockedFile.PolicyTransform LockedFile.PolicyCall.
 Import ListNotations.
 
 (* ---- faults: every plan with at most one faulty operation (a failing write may have
@@ -248,3 +249,113 @@ Theorem C07_no_lost_update_exact : forall cfg f s i g cs,
   reg s i = Nat.iter (length cs) g (content_of (f i)).
 Proof. exact no_lost_update_exact. Qed.
 Print Assumptions C07_no_lost_update_exact.
+
+(* ---- persistent faults (Policy.v: the fault of each operation is chosen by a policy that sees
+   the whole history).  The property text asks for "any SINGLE write step" — the theorems above.
+   Beyond that the code guarantees the following, and not more. *)
+
+(* a size limit L (RLIMIT_FSIZE, a quota): every write stores what fits below L and then fails,
+   the rollback's writes too — all-or-nothing for every L and every length relation *)
+Theorem C07_transform_limit_atomic : forall t old L h fd,
+  rwfd fd ->
+  match run_body_pol (transform_body t) (limit_pol L) h old fd with
+  | (r, X, _) => (r = ResOk /\ t old = Some X) \/ (r = ResErr /\ X = old)
+  end.
+Proof. exact transform_limit_atomic. Qed.
+Print Assumptions C07_transform_limit_atomic.
+
+Theorem C07_transform_call_limit_atomic : forall t old L,
+  match run_pol 0 0 (prog_of_call (CTransform t)) (limit_pol L) [] (os_with (Some old)) with
+  | (_, out, s') =>
+      fds s' 0 = None /\ (forall k, holds 0 k (ltab s' 0) = false) /\
+      ((out = Finished ResOk /\ t old = Some (content_of (files s' 0))) \/
+       (out = Finished ResErr /\ content_of (files s' 0) = old))
+  end.
+Proof. exact transform_call_limit_atomic. Qed.
+Print Assumptions C07_transform_call_limit_atomic.
+
+(* every write fails outright, the truncations do whatever they like: all-or-nothing *)
+Theorem C07_transform_no_write_atomic : forall t old pol h fd,
+  rwfd fd -> writes_always_fail pol ->
+  match run_body_pol (transform_body t) pol h old fd with
+  | (r, X, _) => (r = ResOk /\ t old = Some X) \/ (r = ResErr /\ X = old)
+  end.
+Proof. exact transform_no_write_atomic. Qed.
+Print Assumptions C07_transform_no_write_atomic.
+
+(* ANY policy: an error return never loses bytes — the file is at least as long as before and the
+   old bytes beyond the new length are intact (write first, truncate last) *)
+Theorem C07_transform_err_keeps_old_tail : forall t old pol h fd,
+  rwfd fd ->
+  match run_body_pol (transform_body t) pol h old fd with
+  | (ResErr, X, _) =>
+      length old <= length X /\
+      forall new, t old = Some new ->
+        forall i, length new <= i -> i < length old -> nth i X x00 = nth i old x00
+  | _ => True
+  end.
+Proof. exact transform_err_keeps_old_tail. Qed.
+Print Assumptions C07_transform_err_keeps_old_tail.
+
+Theorem C07_transform_call_err_keeps_old_tail : forall t old pol,
+  io_faults_only pol ->
+  match run_pol 0 0 (prog_of_call (CTransform t)) pol [] (os_with (Some old)) with
+  | (_, Finished ResErr, s') =>
+      let X := content_of (files s' 0) in
+      length old <= length X /\
+      forall new, t old = Some new ->
+        forall j, length new <= j -> j < length old -> nth j X x00 = nth j old x00
+  | _ => True
+  end.
+Proof. exact transform_call_err_keeps_old_tail. Qed.
+Print Assumptions C07_transform_call_err_keeps_old_tail.
+
+(* but all-or-nothing does NOT hold under arbitrary persistent faults: the tail of a growing
+   Transform is written, then every write fails — the file is left as old ++ tail of new *)
+Theorem C07_transform_persistent_not_atomic :
+  exists t old pol, rwfd (fresh_fd edit_flags) /\
+    match run_body_pol (transform_body t) pol [] old (fresh_fd edit_flags) with
+    | (r, X, _) => r = ResErr /\ X <> old /\ t old <> Some X /\ X = old ++ [x7a; x77]
+    end.
+Proof. exact transform_persistent_not_atomic. Qed.
+Print Assumptions C07_transform_persistent_not_atomic.
+
+(* "applies its function to the latest contents and publishes the result": for EVERY result value
+   (the empty one included) a fault-free Transform returns nil and the file holds it *)
+Theorem C07_transform_publishes_any_result : forall t old new h fd,
+  rwfd fd -> t old = Some new ->
+  match run_body_pol (transform_body t) no_fault_pol h old fd with
+  | (r, X, _) => r = ResOk /\ X = new
+  end.
+Proof. exact transform_publishes_any_result. Qed.
+Print Assumptions C07_transform_publishes_any_result.
+
+Theorem C07_transform_call_publishes : forall t old new,
+  t old = Some new ->
+  match run_pol 0 0 (prog_of_call (CTransform t)) no_fault_pol [] (os_with (Some old)) with
+  | (_, out, s') =>
+      out = Finished ResOk /\ content_of (files s' 0) = new /\
+      fds s' 0 = None /\ (forall k, holds 0 k (ltab s' 0) = false)
+  end.
+Proof. exact transform_call_publishes. Qed.
+Print Assumptions C07_transform_call_publishes.
+
+(* Write with any content reader, any I/O policy: nil => exactly what the reader delivered and the
+   reader did not fail; error => the old contents or a prefix of what the reader delivered *)
+Theorem C07_writer_call_faulty : forall chunks rerr old pol,
+  io_faults_only pol ->
+  match run_pol 0 0 (prog_of_call (writer_call chunks rerr)) pol [] (os_with (Some old)) with
+  | (_, out, s') =>
+      fds s' 0 = None /\ (forall k, holds 0 k (ltab s' 0) = false) /\
+      ((out = Finished ResOk /\ rerr = false /\ content_of (files s' 0) = concat chunks) \/
+       (out = Finished ResErr /\
+        (content_of (files s' 0) = old \/ exists m, content_of (files s' 0) = firstn m (concat chunks))))
+  end.
+Proof. exact writer_call_faulty. Qed.
+Print Assumptions C07_writer_call_faulty.
+
+(* the policy semantics gives the position plans of the theorems above as a special case *)
+Theorem C07_policies_extend_plans : forall p plan h b fd,
+  run_body_pol p (pol_of_plan plan) h b fd = run_body p plan (length h) b fd.
+Proof. exact run_body_pol_plan. Qed.
+Print Assumptions C07_policies_extend_plans.
